@@ -1078,6 +1078,7 @@ func ProcessGetTagPairsWithMostSeriesRequest(ctx *fasthttp.RequestCtx, myid int6
 		utils.SendInternalError(ctx, "Failed to search metrics", "Failed to get tags trees", err)
 		return
 	}
+	defer query.CloseTagsTrees(tagsTreeReaders)
 
 	tagPairs := make(map[string]map[string]struct{})
 	for _, segmentTagTreeReader := range tagsTreeReaders {
@@ -1190,6 +1191,7 @@ func ProcessGetTagKeysWithMostValuesRequest(ctx *fasthttp.RequestCtx, myid int64
 		utils.SendInternalError(ctx, "Failed to search metrics", "Failed to get tags trees", err)
 		return
 	}
+	defer query.CloseTagsTrees(tagsTreeReaders)
 
 	tagPairs := make(map[string]map[string]struct{})
 	for _, segmentTagTreeReader := range tagsTreeReaders {
